@@ -91,6 +91,8 @@ impl<T: Read + Seek> PagedReader<T> {
             ))?;
         }
         let offset = page * self.page_size;
+        // The buffer is overwritten now, it no longer holds a validated page if reading fails part way
+        self.page_num = None;
         self.reader.seek(SeekFrom::Start(offset))?;
         self.reader.read_exact(&mut self.page_buffer)?;
         let data_size = self.page_size - CHECKSUM_SIZE;
